@@ -600,10 +600,13 @@ pub fn gen_aln(rng: &mut Rng, for_cram: bool) -> Option<Aln> {
         t.push_str("@PG\tID:nvh\tPN:nvh\n@CO\ta comment line\n");
     }
     let dense = rng.chance(1, 3);
+    // one file in ten holds unplaced reads only: its index has no position of a last placed record, and
+    // `query_unmapped` takes its fallback (scan from the first record)
+    let only_unplaced = !for_cram && rng.chance(1, 10);
     let mut lines: Vec<(usize, usize, String)> = vec![];
     let mut serial = 0;
     for (rid, (rname, rseq)) in refs.iter().enumerate() {
-        let n = if dense { rng.below(120) } else { rng.below(14) } as usize;
+        let n = if only_unplaced { 0 } else if dense { rng.below(120) } else { rng.below(14) } as usize;
         for _ in 0..n {
             let pos = 1 + rng.below((ln - 400) as u64) as usize;
             // CIGAR: [S] M [I M] [D M] [S]
@@ -660,7 +663,7 @@ pub fn gen_aln(rng: &mut Rng, for_cram: bool) -> Option<Aln> {
     for l in &lines {
         t.push_str(&l.2);
     }
-    for _ in 0..rng.below(5) {
+    for _ in 0..(if only_unplaced { 2 + rng.below(4) } else { rng.below(5) }) {
         let n = 1 + rng.below(30) as usize;
         let seq: String = (0..n).map(|_| *rng.pick(b"ACGTN") as char).collect();
         let qual: String = (0..n).map(|_| (b'!' + rng.below(41) as u8) as char).collect();
@@ -1012,6 +1015,13 @@ fn bam_case(ctx: &mut Ctx, sub: u64) {
         }
     };
     let regions = gen_regions(&mut rng, a.refs.len());
+    // unplaced reads only: ask for them twice, so that the second query finds a reader that has been read
+    let regions = if !a.recs.is_empty() && a.recs.iter().all(|r| r.reference_sequence_id().is_none()) {
+        ctx.bump("query_file_with_unplaced_reads_only");
+        vec![None, Some(Region::new("sq0", ..)), None]
+    } else {
+        regions
+    };
     let mut sync = vec![];
     {
         let mut r = bam::io::Reader::new(std::io::Cursor::new(file.clone()));
@@ -1348,6 +1358,13 @@ fn sam_case(ctx: &mut Ctx, sub: u64) {
         ix.build(a.refs.len())
     };
     let regions = gen_regions(&mut rng, a.refs.len());
+    // unplaced reads only: ask for them twice, so that the second query finds a reader that has been read
+    let regions = if !a.recs.is_empty() && a.recs.iter().all(|r| r.reference_sequence_id().is_none()) {
+        ctx.bump("query_file_with_unplaced_reads_only");
+        vec![None, Some(Region::new("sq0", ..)), None]
+    } else {
+        regions
+    };
     let starts: Vec<Option<(u64, u64)>> = regions
         .iter()
         .map(|q| q.as_ref().and_then(|rg| a.header.reference_sequences().get_index_of(rg.name()).and_then(|id| index.query(id, rg.interval()).ok()).and_then(|c| chunk_ends(&c))))
@@ -2181,8 +2198,24 @@ fn cram_case(ctx: &mut Ctx, sub: u64) {
     let repo = fasta::Repository::new(
         a.refs.iter().map(|(n, s)| fasta::Record::new(fasta::record::Definition::new(n.clone(), None), fasta::record::Sequence::from(s.clone()))).collect::<Vec<_>>(),
     );
+    // builder options, the same for both writers: a third of the cases use a CRAM 3.1 codec (the file
+    // definition must then say 3.1), some drop read names / store absolute positions. The option draw has
+    // its own generator so that the rest of the case is what it was before the options existed.
+    let mut orng = Rng::new(sub ^ 0x0c16_0b7);
+    let opt_31 = orng.chance(1, 3);
+    let opt_names = !orng.chance(1, 4);
+    let opt_deltas = !orng.chance(1, 4);
+    let encoder_map = move || {
+        use cram::{codecs::{rans_nx16, Encoder}, container::BlockContentEncoderMap};
+        BlockContentEncoderMap::builder().set_default_encoder(Some(Encoder::RansNx16(rans_nx16::Flags::empty()))).build()
+    };
+    ctx.bump(&format!("cram_writer_options:v31={opt_31},names={opt_names},deltas={opt_deltas}"));
     let wr = guarded(|| -> std::io::Result<Vec<u8>> {
-        let mut w = cram::io::writer::Builder::default().set_reference_sequence_repository(repo.clone()).build_from_writer(Vec::new());
+        let mut b = cram::io::writer::Builder::default().set_reference_sequence_repository(repo.clone()).preserve_read_names(opt_names).encode_alignment_start_positions_as_deltas(opt_deltas);
+        if opt_31 {
+            b = b.set_block_content_encoder_map(encoder_map());
+        }
+        let mut w = b.build_from_writer(Vec::new());
         w.write_header(&a.header)?;
         for r in &a.recs {
             w.write_alignment_record(&a.header, r)?;
@@ -2233,7 +2266,11 @@ fn cram_case(ctx: &mut Ctx, sub: u64) {
     let (h2, recs2, repo2) = (a.header.clone(), a.recs.clone(), repo.clone());
     let wr = guarded(move || {
         block_on(async move {
-            let mut w = cram::r#async::io::writer::Builder::default().set_reference_sequence_repository(repo2).build_from_writer(k);
+            let mut b = cram::r#async::io::writer::Builder::default().set_reference_sequence_repository(repo2).preserve_read_names(opt_names).encode_alignment_start_positions_as_deltas(opt_deltas);
+            if opt_31 {
+                b = b.set_block_content_encoder_map(encoder_map());
+            }
+            let mut w = b.build_from_writer(k);
             w.write_header(&h2).await?;
             for r in &recs2 {
                 w.write_alignment_record(&h2, r).await?;
@@ -2256,6 +2293,10 @@ fn cram_case(ctx: &mut Ctx, sub: u64) {
                     let _ = std::fs::write(format!("{d}/cram.async.bin"), &fa);
                     let _ = std::fs::write(format!("{d}/cram.sync.bin"), &file);
                 }
+            }
+            // the file definition (magic number, format version; the file id is empty for both)
+            if fa.len() < 6 || file.len() < 6 || fa[..6] != file[..6] {
+                ctx.fail("cram-async-writer", format!("the async CRAM writer's file definition starts {} where the sync writer's starts {} (CRAM 3.1 codec requested: {opt_31}; {how})", hex(&fa[..fa.len().min(6)]), hex(&file[..file.len().min(6)])), case.clone());
             }
             // both must end with the CRAM EOF container (38 bytes in CRAM 3.x)
             if fa.len() < 38 || file.len() < 38 || fa[fa.len() - 38..] != file[file.len() - 38..] {
@@ -2311,6 +2352,13 @@ fn cram_case(ctx: &mut Ctx, sub: u64) {
     };
     let _ = std::fs::remove_file(&path);
     let regions = gen_regions(&mut rng, a.refs.len());
+    // unplaced reads only: ask for them twice, so that the second query finds a reader that has been read
+    let regions = if !a.recs.is_empty() && a.recs.iter().all(|r| r.reference_sequence_id().is_none()) {
+        ctx.bump("query_file_with_unplaced_reads_only");
+        vec![None, Some(Region::new("sq0", ..)), None]
+    } else {
+        regions
+    };
     let mut sync = vec![];
     let sync_ok = guarded(|| {
         let mut r = cram::io::reader::Builder::default().set_reference_sequence_repository(repo.clone()).build_from_reader(std::io::Cursor::new(file.clone()));
